@@ -306,6 +306,18 @@ FINDINGS.append(
     )
 )
 
+FINDINGS.append(
+    dict(
+        id="KF-C12-module-constexpr-calls-sibling",
+        property="C12",
+        also=[],
+        trigger="module_constexpr_calls_sibling_constexpr",
+        what="constexpr functions of a library module are evaluated inside a generated 'class <module>:' wrapper; a constexpr function that calls another constexpr function of the same module fails there with NameError (class scope is not visible from the function body), although the same pair works in the main file",
+        signatures=dict(C12=[dict(monitor="constexpr-eval", event="error-for-evaluable-call", exc="NameError")]),
+        witness=dict(C12=dict(defs=["@constexpr\ndef cx_inner(a):\n    return a + 1\n@constexpr\ndef cx_nested(a):\n    return cx_inner(a) * 2\n"], calls=[dict(text="cx_nested(2)", position="assign")], options=dict(append_version=False), stream="witness", module=True)),
+    )
+)
+
 C16 = dict(
     id="KF-C16-intrinsic-output-register",
     property="C16",
